@@ -56,7 +56,15 @@ def rand_cell(rng, sep, heavy=False):
     return b"".join(parts)
 
 
+PREFIX_FAMILY = [b"id", b"id2", b"id22", b"i", b"name", b"name_full", b"na", b"n", b"x", b"xy"]
+
+
 def rand_header(rng, sep, ncols, plain=False):
+    if not plain and ncols >= 2 and rng.random() < 0.25:
+        # column names that are proper prefixes of one another, in any order: a lookup by name must compare whole names
+        fam = PREFIX_FAMILY[:]
+        rng.shuffle(fam)
+        return fam[:ncols]
     names = []
     while len(names) < ncols:
         if plain or rng.random() < 0.6:
